@@ -210,7 +210,7 @@ theorem checked_names_distinct (env : Env) (eng : Engine) (m : MethodEntry) (src
 
 /-- and `CreateFunction` reaches the generator only through that check -/
 theorem createFunction_through_check (env : Env) (eng : Engine) (m : MethodEntry) (b : Built)
-    (h : createFunction env eng m = .ok b) :
+    (built : List String := []) (h : createFunction env eng m built = .ok b) :
     ∃ src dst additional srcVar dstVar argVars,
       checkNamesAndBuild env eng m src dst additional srcVar dstVar argVars = .ok b := by
   unfold createFunction at h
